@@ -164,6 +164,39 @@ def malformed_inputs(rng):
         ("valid-then-garbage", ok_dwr + bytes(rng.randrange(256) for _ in range(23))),
         ("huge-declared-length", b"\x01\xff\xff\xfc\x80\x00\x01\x18" + bytes(40)),
     ]
+    # framed, decodable (or nearly) application and base messages whose *content* is hostile: the bytes pass the splitter and
+    # mostly the decoder, and reach the code that looks inside messages (logging, addressing rules, base-message validation)
+    L = N.LOCAL
+    hostile = [b"", b"\xff\xfe\xfd", b"\xc3\x28", b"a\x00b", "\u00e9\u4e2d".encode(), b"x" * 1000, b"\x80", b"ok.example"]
+    text_avps = [1, 263, 264, 296, 293, 283, 282, 281, 269]      # User-Name, Session-Id, Origin-*, Destination-*, Route-Record, Error-Message, Product-Name
+
+    def hostile_message(request, fixed=None):
+        h = rng.randrange(1 << 32)
+        avps = [N.avp(263, b"peer;1;%d" % (h & 0xffff))] + N.origin(*P)
+        if request:
+            avps += [N.avp(283, L[1].encode())] + ([N.avp(293, L[0].encode())] if rng.random() < 0.5 else [])
+        else:
+            avps.insert(1, N.avp(268, N.u32(rng.choice([2001, 3002, 5012, 0, 0xffffffff]))))
+        picks = fixed or [(rng.choice(text_avps), rng.choice(hostile)) for _ in range(rng.randrange(1, 4))]
+        for code, val in picks:
+            repl = [i for i, x in enumerate(avps) if x.code == code]
+            if repl and rng.random() < 0.7:
+                avps[repl[0]] = N.avp(code, val)
+            else:
+                avps.insert(rng.randrange(len(avps) + 1), N.avp(code, val))
+        if not fixed and rng.random() < 0.3:
+            avps.append(N.avp(rng.choice([258, 278, 268, 273]), rng.choice([b"", b"\x01", N.u32(7) + b"\x00", N.u32(0xffffffff)])))
+        app, code = rng.choice([(16777251, 316), (16777251, 318), (4, 272), (0, 274), (16777251, 8388620)])
+        return R.encode(R.LMsg(1, (0x80 if request else 0) | rng.choice([0x40, 0x00]), code, app, h, h ^ 0x5a5a, avps))
+    out += [
+        ("hostile-content-request", hostile_message(True)),
+        ("hostile-content-answer", hostile_message(False)),
+        ("hostile-content-burst", b"".join(hostile_message(rng.random() < 0.6) for _ in range(rng.randrange(2, 6)))),
+        ("empty-origin-host-request", hostile_message(True, [(264, b"")])),
+    ]
+    for code in text_avps:      # every text AVP the node may look into, once undecodable in a request and once in an answer
+        out.append(("invalid-utf8-avp-%d-request" % code, hostile_message(True, [(code, rng.choice([b"\xffalice\xfe", b"\xc3\x28;1;2", b"\x80"]))])))
+        out.append(("invalid-utf8-avp-%d-answer" % code, hostile_message(False, [(code, rng.choice([b"\xff\xfe", b"\x80abc"]))])))
     return out
 
 
